@@ -39,7 +39,7 @@ type res struct {
 func main() {
 	names := am.S{"A", "B", "C", "D"}
 	reps := ` + fmt.Sprint(reps) + `
-	r := res{Schema: "all 4-state schemas with at most one Require and one After per state (Add of all four), and T + four Auto states with T removing none/one of them and none/one mutually Removing pair (Add T, Remove T, Set T)", Group: "target-order", Kind: "determinism", Bound: reps, Exhausted: true}
+	r := res{Schema: "all 4-state schemas with at most one Require and one After per state (Add of all four), and T + four Auto states with T removing none/one of them and none/one mutually Removing pair (Add T, Remove T, Set T), and every exclusive group of 2..4 of G1..G4 sharing one Remove/After slice (Add each in turn, Add all; second machine from the same schema value)", Group: "target-order", Kind: "determinism", Bound: reps, Exhausted: true}
 	// every state requires / comes after none or one of the others
 	choice := func(code int, self int) am.S {
 		if code == 0 {
@@ -130,6 +130,61 @@ func main() {
 					r.Violation = fmt.Sprintf("schema T{Remove:%v} X1..X4 Auto, mutual Remove pair #%d: Add T, Remove T, Set T gave [%s] in run 1 and [%s] in run %d", schema["T"].Remove, p, first, out, k+1)
 					break
 				}
+			}
+		}
+	}
+	// third family: exclusive groups written the usual way - ONE slice shared as the Remove
+	// relation of all its members (so it contains each member itself). Every group of 2..4
+	// of G1..G4; history: Add each member in turn, then Add all. Each run builds the schema
+	// afresh; a second machine from the same schema value must behave like the first.
+	gs := am.S{"G1", "G2", "G3", "G4"}
+	for mask := 3; mask < 16 && r.Violation == ""; mask++ {
+		build := func() am.Schema {
+			var group am.S
+			for i, g := range gs {
+				if mask&(1<<i) != 0 {
+					group = append(group, g)
+				}
+			}
+			schema := am.Schema{}
+			for i, g := range gs {
+				if mask&(1<<i) != 0 {
+					schema[g] = am.State{Remove: group, After: group}
+				} else {
+					schema[g] = am.State{}
+				}
+			}
+			return schema
+		}
+		if len(build()) < 2 {
+			continue
+		}
+		run := func(schema am.Schema) string {
+			ctx, cancel := context.WithCancel(context.Background())
+			defer cancel()
+			m := am.New(ctx, schema, &am.Opts{Id: "verif-c11"})
+			out := ""
+			for _, g := range gs {
+				res := m.Add1(g, nil)
+				out += fmt.Sprint(res) + " " + strings.Join(m.ActiveStates(nil), ",") + "; "
+			}
+			res := m.Add(gs, nil)
+			out += fmt.Sprint(res) + " " + strings.Join(m.ActiveStates(nil), ",") + " " + fmt.Sprint(m.Time(nil))
+			return out
+		}
+		first := ""
+		for k := 0; k < reps && r.Violation == ""; k++ {
+			schema := build()
+			out := run(schema)
+			again := run(schema)
+			r.States += 2
+			if k == 0 {
+				first = out
+			}
+			if out != first {
+				r.Violation = fmt.Sprintf("group mask %04b of G1..G4 sharing one Remove/After slice: Add G1..G4 in turn, Add all gave [%s] in run 1 and [%s] in run %d", mask, first, out, k+1)
+			} else if again != out {
+				r.Violation = fmt.Sprintf("group mask %04b of G1..G4 sharing one Remove/After slice: a second machine built from the same schema value gave [%s], the first [%s]", mask, again, out)
 			}
 		}
 	}
